@@ -21,13 +21,16 @@ _real_time = _time.time
 
 
 class VClock:
-    """Virtual clock = real clock + offset that only the harness advances."""
+    """Purely logical clock: starts at the real time of its creation and moves
+    only when the harness advances it (never with wall time), so timeouts,
+    leases and ages measured on it are exact whatever the machine load."""
 
     def __init__(self) -> None:
+        self.t0 = _real_time()
         self.offset = 0.0
 
     def now(self) -> float:
-        return _real_time() + self.offset
+        return self.t0 + self.offset
 
     def advance(self, d: float) -> None:
         if d > 0:
@@ -113,7 +116,9 @@ class FakeS3Store:
         return f'"etag-{self.gen:08d}"'
 
     def _last_modified(self, o: Obj) -> datetime:
-        return datetime.fromtimestamp(o.written_v - self.clock.offset, tz=timezone.utc)
+        # reported so that the caller's own "real now - LastModified" equals the VIRTUAL age
+        age = self.clock.now() - o.written_v
+        return datetime.fromtimestamp(_real_time() - age, tz=timezone.utc)
 
     def set_age(self, bucket: str, key: str, age_s: float) -> None:
         o = self.objects[(bucket, key)]
